@@ -127,6 +127,15 @@ def build(
         graph = results(**outputs)
         if not drop_unused_inputs:
             graph = graph.with_arguments(*inputs.values())
+        else:
+            # Keep the inputs that are used in the order in which they were given
+            # (the arguments found by traversal are collected in a set).
+            used = set(graph.get_arguments().values())
+            listed = set(inputs.values())
+            graph = results(**outputs).with_arguments(
+                *(var for var in inputs.values() if var in used),
+                *(var for var in graph.get_arguments().values() if var not in listed),
+            )
         model_proto = graph.to_onnx_model()
 
     # Validate that no further inputs were required.
